@@ -30,7 +30,8 @@ def sweep_scenarios(seed, tier):
 def key_of(line, sc):
     F = sorted(set((p, k) for p, k in line["faults"]))
     return "%s:%s:%s" % (line["e"], line["res"] + ("" if line["e"] == "setpos" else ("+div" if line.get("div") else "+nodiv")
-                                                      + ("+finite" if line.get("fin") else "+nonfinite")),
+                                                      + ("+finite" if line.get("fin") else "+nonfinite")
+                                                      + ("".join("+bad:" + b for b in line.get("badstats", [])))),
                          ",".join("%s/%s" % f for f in F) or "nofault")
 
 
@@ -73,6 +74,10 @@ def run(tier):
         for c in res["calls"]:
             if c["res"] == "panic":
                 panics.append((sc, c["e"]))
+            # R5: a valid draw has finite position, log-density *and* usable statistics (step size > 0, finite acceptance
+            # statistics and energy, at least one integration step)
+            if c.get("badstats"):
+                c["fin"] = False
             ev.append(c)
             if c["faults"]:
                 any_f = True
